@@ -2,6 +2,7 @@
 
 from __future__ import annotations
 
+import keyword
 import logging
 from dataclasses import dataclass, field
 from typing import TYPE_CHECKING, cast
@@ -147,6 +148,17 @@ def _to_symbolic_repr(model: Model) -> SymbolicRepr:
     return sym
 
 
+# Names the generated module needs for itself
+_RESERVED_NAMES = {
+    "math",
+    "scipy",
+    "Model",
+    "Derived",
+    "InitialAssignment",
+    "create_model",
+}
+
+
 def _same_function(
     one: tuple[sympy.Expr, list[str]], other: tuple[sympy.Expr, list[str]]
 ) -> bool:
@@ -171,6 +183,8 @@ def _register_fn(
     Components that use one function with other argument names share a definition;
     different functions that happen to have the same name get a numbered one.
     """
+    if fn_name in _RESERVED_NAMES or keyword.iskeyword(fn_name):
+        fn_name = f"{fn_name}_fn"
     name, n = fn_name, 1
     while (existing := functions.get(name)) is not None and not _same_function(
         existing, (expr, args)
